@@ -137,7 +137,7 @@ OPW = np.array([0.26, 0.09, 0.09, 0.26, 0.10, 0.08, 0.07, 0.05])
 
 def shards(tier, seed):
     out = []
-    reps = 2 if tier == "quick" else 3
+    reps = 2 if tier == "quick" else 4
     for rep in range(reps):
         for d in (2, 3):
             for ip in range(2):
@@ -618,4 +618,4 @@ def run_shard(sh, rec):
         run_history(rec, rng, sh, h, length)
 
 
-N_HIST = {"quick": 19, "thorough": 250}
+N_HIST = {"quick": 19, "thorough": 375}  # 16 x 19 = 304 and 32 x 375 = 12000 histories (~0.29 CPU-s each)
